@@ -172,6 +172,12 @@ def call_spec_fn(self, name, e, st):
             s2 = State(dict(st.env, self=v), st.heap, st.pc, st.next_ref, st.ghost, st.labels)
             zs.append(self.truth(self.ev1(parse_expr(inv), s2)[0], s2))
         return bool_val(z3.And(*zs) if zs else z3.BoolVal(True))
+    if name == "keys_are":     # keys_are(d, "a", "b", ...): the key set of d is exactly the listed strings
+        d = self.ev1(e.args[0], st)[0]
+        ks = [z3.StringVal(x.value) for x in e.args[1:]]
+        k = fresh("k", z3.StringSort())
+        dom = self.dom(st, d)
+        return bool_val(z3.ForAll([k], z3.Select(dom, k) == (z3.Or(*[k == x for x in ks]) if ks else z3.BoolVal(False))))
     if name == "ssum":
         v = self.ev1(e.args[0], st)[0]
         from .engine import ssum_fn
@@ -200,7 +206,7 @@ def _mentions(z, idset):
     return False
 
 
-SPEC_NAMES = {"wf", "last_result", "last_arg", "called_after", "old", "at", "result", "forall", "exists", "implies", "iff", "ite", "is_none", "val", "fresh", "same",
+SPEC_NAMES = {"keys_are", "wf", "last_result", "last_arg", "called_after", "old", "at", "result", "forall", "exists", "implies", "iff", "ite", "is_none", "val", "fresh", "same",
               "ssum"}
 
 
@@ -399,6 +405,8 @@ def isinstance_static(self, v, cls_node, st):
 
 
 def isinstance_unknown(self, v, txt):
+    if self.lenient:
+        return fresh("unk_isinstance", z3.BoolSort())
     raise Untranslatable(f"isinstance({v!r}, {txt}) not statically decidable; add isinstance_map to the contract")
 
 
@@ -552,6 +560,9 @@ def call_builtin(self, name, args, kwargs, st, node):
         if et is None:
             probe = self.guess_tuple(view.at(fresh("p", z3.IntSort())), st)
             et = probe.t if isinstance(probe, Val) else None
+        if et is None and self.lenient:
+            yield Unknown("tuple of untracked values"), st
+            return
         yield self.materialise(view, st, et), st
         return
     if name in ("list", "deque", "Deque"):
@@ -663,6 +674,13 @@ def call_builtin(self, name, args, kwargs, st, node):
         return
     if name == "iter":
         yield a[0], st
+        return
+    if name == "super" and not a:
+        me = st.env.get("self")
+        cur = self.cur_fn.split(".")[0]
+        if not (isinstance(me, Val) and isinstance(me.t, Obj)):
+            raise Untranslatable("super() outside a method with a typed self")
+        yield ("super", me, cur), st
         return
     if name in ("randint", "random.randint"):
         lo, hi = self.as_int(a[0], st).z, self.as_int(a[1], st).z
@@ -805,6 +823,16 @@ def set_update(self, st, s, view):
 # ---------------------------------------------------------------------------------------------- methods
 def call_method(self, recv, name, args, kwargs, st, node):
     a = args
+    if isinstance(recv, tuple) and recv and recv[0] == "super":
+        _, me, cur = recv
+        mro = self.reg.mro(me.t.cls)
+        after = mro[mro.index(cur) + 1:] if cur in mro else mro[1:]
+        for c0 in after:
+            c = self.reg.contracts.get(f"{c0}.{name}")
+            if c is not None:
+                yield from self.call_contract(c, [me] + list(args), kwargs, st, node)
+                return
+        raise Untranslatable(f"super().{name}: no contract in {after}")
     if isinstance(recv, tuple) and recv and recv[0] == "listlit":
         recv = recv[1]
     if isinstance(recv, PyTuple):
@@ -975,6 +1003,8 @@ def call_method(self, recv, name, args, kwargs, st, node):
                     yield Val(Int, z3.If(present, v.z, 0)), st
                     return
                 d = a[1] if len(a) > 1 else kwargs.get("default", none_val())
+                if isinstance(d, PyTuple) and isinstance(t.v, (Seq, Tup)):
+                    d = self.coerce(d, t.v, st)
                 m = self.merge_vals(present, v, self.guess_tuple(d, st), st)
                 if m is None:
                     raise Untranslatable("dict.get default of another type")
@@ -1106,6 +1136,9 @@ def bind_params(self, c, fnode, args, kwargs, st):
     """Bind call arguments to the callee's parameter names (from the real signature)."""
     a = fnode.args
     names = [x.arg for x in a.posonlyargs + a.args]
+    if any(isinstance(d, ast.Name) and d.id == "classmethod" for d in fnode.decorator_list) and names \
+            and names[0] == "cls" and len(args) + len([k for k in kwargs if k in names]) == len(names) - 1:
+        args = [Unknown("cls")] + list(args)
     env = {}
     if len(args) > len(names):
         raise Untranslatable(f"too many positional arguments for {c.qual}")
